@@ -209,6 +209,9 @@ func (s *scriptT) renderCaller(c *Case, calleeExpr string, setup []string) {
 		}
 	}
 	for k, v := range c.Args {
+		if c.ArgSrc != "" {
+			break // all arguments come from one nested call
+		}
 		pt := paramTypeOf(c, k)
 		name := fmt.Sprintf("v%d", k)
 		switch c.Forms[k] {
